@@ -164,7 +164,14 @@ class Run:
             for ln in range(s['line_start'], s['line_end'] + 1):
                 e = self.lm[ln] if ln < len(self.lm) else None
                 if e and 'clause' in e and e['clause'] != 'prelude':
-                    clause = e['clause']; cprops = e['props']; break
+                    clause = e['clause']; cprops = e['props']
+                    if not e.get('explicit'):
+                        # a clause written over several lines carries its `/*@p ..*/` tag on a later line of the same span
+                        ex = [self.lm[k] for k in range(ln, min(s['line_end'] + 1, len(self.lm)))
+                              if self.lm[k] and self.lm[k].get('clause') == clause and self.lm[k].get('explicit')]
+                        if ex:
+                            cprops = sorted(set(p for x in ex for p in x['props']))
+                    break
             if clause: break
         where = None
         p = prim[0]
@@ -356,7 +363,8 @@ class Run:
         if soft:
             self.notes.append('site anchors lost (clauses dropped): ' + '; '.join(l['desc'] for l in soft))
             if not any(f['engine'] == 'verus' for f in self.failures):
-                raise Undecided('site anchors lost: ' + '; '.join(l['desc'] for l in soft))
+                # undecided unless another unit of this property (Kani harness, native test) finds a violation
+                self.deferred_undecided.append('site anchors lost: ' + '; '.join(l['desc'] for l in soft))
         if whole:
             # stability cross-check: same crate, different Z3 seed; a disagreement is UNDECIDED, not a violation
             seed2 = (self.seed or 0) + 7
